@@ -293,9 +293,10 @@ class Ctx:
             if f.get("kind") == "known" and f.get("key") == key:
                 if key not in [k for k, _ in self.known_hit]:
                     self.known_hit.append((key, f.get("what", what)))
-                return
+                return False
         if len(self.spec_fail) < 50:
             self.spec_fail.append({"what": what, "case": case, "key": key})
+        return True
 
     # -- Lean side -------------------------------------------------------------
     def prove(self, targets, prop_files, extra_theorem_files=()):
@@ -358,7 +359,7 @@ class Ctx:
                 seen.add(sf["key"])
                 if len(seen) > 5:
                     break
-                path = REPLAYS / ("%s-%s.json" % (self.prop, sf["key"]))
+                path = REPLAYS / ("%s-%s.json" % (self.prop, re.sub(r"[^A-Za-z0-9_.#-]+", "_", sf["key"])[-120:]))
                 path.write_text(json.dumps({
                     "property": self.prop, "seed": self.seed, "tier": self.tier,
                     "what": sf["what"], "case": sf["case"], "key": sf["key"],
